@@ -76,6 +76,35 @@ theorem c09_fits_by_counting (budget : Budget) (h : budget.wf = true) (w : List 
 
 example : fits exBudget [.status 503, .truncate 1] = true ∧ fits exBudget [.truncate 2, .reset 1] = false := by decide
 
+/-- the configuration a store builds from the default `retries=2`: connect 2, read 2, status 5 and a
+    joint count of 10 (the harness pins this table as `DEFAULT_BUDGET`) -/
+def defaultBudget : Budget := ⟨some 10, some 2, some 2, none, some 5, none⟩
+
+/-- **The default configuration keeps the two budgets apart**: a fault word made of status and body
+    faults fits the default budget iff it holds at most 5 status faults and at most 2 body faults -
+    the joint count of 10 never binds before one of them does, for words of any length. -/
+theorem c09_default_budget_by_kind (w : List Fault) (h : w.length = countStatus w + countRead w) :
+    fits defaultBudget w = (decide (countStatus w ≤ 5) && decide (countRead w ≤ 2)) := by
+  rw [c09_fits_by_counting defaultBudget (by decide) w]
+  simp only [defaultBudget, room]
+  by_cases hs : countStatus w ≤ 5 <;> by_cases hr : countRead w ≤ 2 <;>
+    simp [hs, hr] <;> omega
+
+/-- ... hence a chunk request against a store in the default configuration returns exactly the
+    stored array after ANY mix of up to 5 status faults and up to 2 body faults (7 faults at most),
+    and reports a server glitch as soon as one of the two counts is exceeded -/
+theorem c09_default_budget_outcome (rq : Req α) (a : α) (hr : GoodReader rq a) (hm : rq.mode = .streaming)
+    (w : List Fault) (hw : ∀ f ∈ w, transient rq.forcelist rq.body.length f = true)
+    (h : w.length = countStatus w + countRead w) :
+    (rq.request defaultBudget w).1 =
+      (if countStatus w ≤ 5 ∧ countRead w ≤ 2 then .ok a else .error .glitch) := by
+  rw [c09_outcome rq a hr hm defaultBudget w hw, c09_default_budget_by_kind w h]
+  by_cases hs : countStatus w ≤ 5 <;> by_cases hr' : countRead w ≤ 2 <;> simp [hs, hr']
+
+example : fits defaultBudget [.status 503, .truncate 1, .status 502, .reset 0, .status 500, .status 504, .status 503] = true ∧
+    fits defaultBudget [.status 503, .status 503, .status 503, .status 503, .status 503, .status 503] = false ∧
+    fits defaultBudget [.status 500, .truncate 1, .reset 0, .truncate 2] = false := by decide
+
 /-- Refinement: on *every* script (transient or not) the chunk request computes exactly the
     documented rule `specRun`, outcome and request count. -/
 theorem c09_outcome_spec (rq : Req α) (a : α) (hr : GoodReader rq a) (hm : rq.mode = .streaming)
